@@ -180,8 +180,116 @@ def sim_part(thorough):
 PHASES = ("accepted-idle", "head-partial", "app-running", "response-partial", "keepalive-idle")
 
 
+def _hook_cell(cell):
+    """TERM while the OLDER of two sync workers is inside a request and the younger, idle one exits at once - through a
+    worker_exit hook that raises.  A failing hook is that worker's business: the request in the other worker is answered."""
+    wc, sig_name, phase, app, bind = cell
+    s = rp.Server(worker_class=wc, workers=2, bind=bind, graceful_timeout=GRACEFUL + 2, timeout=30, keepalive=5,
+                  conf_lines=["def worker_exit(server, worker):\n    raise RuntimeError('worker_exit hook failed')"])
+    try:
+        if not s.start():
+            return ("infrastructure", "server did not start: %s" % s.log_text()[-300:])
+        time.sleep(0.3)
+        ca, cb = s.connect(), s.connect()
+        ca.sendall(b"GET /gate/a HTTP/1.1\r\nHost: h\r\n\r\n")
+        pa = s.gate.wait_entered("app:a", 8)
+        cb.sendall(b"GET /gate/b HTTP/1.1\r\nHost: h\r\n\r\n")
+        pb = s.gate.wait_entered("app:b", 8)
+        if pa is None or pb is None or pa == pb:
+            return ("infrastructure", "could not occupy both workers (%r, %r)" % (pa, pb))
+        older, younger = ("a", "b") if pa < pb else ("b", "a")      # pids are handed out in increasing order within such a short time
+        conn = {"a": ca, "b": cb}
+        s.gate.release("app:" + younger)
+        head, body, complete, closed = rp.read_response(conn[younger], 5)
+        if not complete:
+            return ("infrastructure", "warm-up request not answered")
+        t_sig = time.time()
+        s.signal(getattr(signal, "SIG" + sig_name))
+        time.sleep(1.0)            # the idle worker leaves (its hook raises); the busy one is still inside the application
+        s.gate.release("app:" + older)
+        head, body, complete, closed = rp.read_response(conn[older], GRACEFUL + 4)
+        v = None
+        if not complete or body != b"gated-ok":
+            v = ("in-flight-request-not-answered:sibling-exit-hook-failed", "two workers, TERM: the idle one exited (worker_exit hook raises) while the other was inside a "
+                 "request that finished 1 s later, well inside graceful_timeout: the client got head=%r body=%r" % (head[:60], body))
+        status = s.wait_exit(GRACEFUL + 8)
+        if status is None:
+            v = v or ("master-did-not-exit", "master still running %.1f s after TERM" % (time.time() - t_sig))
+        elif status != 0:
+            v = v or ("exit-status", "master exit status %r after TERM (a worker_exit hook raised in a worker)" % status)
+        if s.pidfile and os.path.exists(s.pidfile):
+            v = v or ("pidfile-left", "pid file still exists")
+        for c in (ca, cb):
+            c.close()
+        return v
+    finally:
+        s.cleanup()
+
+
+def _helper_cell(cell):
+    """The application starts a helper process when it is imported (in the worker).  After the stop nothing may listen on the
+    address any more - the helper must not have been handed the listening socket."""
+    import glob
+    wc, sig_name, phase, app, bind = cell
+    s = rp.Server(worker_class=wc, workers=2, bind=bind, graceful_timeout=GRACEFUL, timeout=30, keepalive=5,
+                  threads=2 if wc == "gthread" else None, env={"VERIF_SPAWN_HELPER": "1"})
+    helpers = []
+    try:
+        if not s.start():
+            return ("infrastructure", "server did not start: %s" % s.log_text()[-300:])
+        time.sleep(0.5)
+        for f in glob.glob(os.path.join(s.dir, "helper-*.pid")):
+            try:
+                helpers.append(int(open(f).read()))
+            except (OSError, ValueError):
+                pass
+        if not helpers:
+            return ("infrastructure", "the application did not start its helper")
+        c = s.connect()
+        c.sendall(b"GET /plain HTTP/1.1\r\nHost: h\r\nConnection: close\r\n\r\n")
+        rp.read_response(c, 5)
+        c.close()
+        s.signal(getattr(signal, "SIG" + sig_name))
+        status = s.wait_exit(GRACEFUL + 6)
+        v = None
+        if status is None:
+            v = ("master-did-not-exit", "master still running after %s" % sig_name)
+        elif status != 0:
+            v = ("exit-status", "master exit status %r" % status)
+        time.sleep(0.3)
+        holders = []
+        for h in helpers:
+            try:
+                for fd in os.listdir("/proc/%d/fd" % h):
+                    try:
+                        if os.readlink("/proc/%d/fd/%s" % (h, fd)).startswith("socket:"):
+                            holders.append(h)
+                            break
+                    except OSError:
+                        pass
+            except OSError:
+                pass
+        if s.can_connect():
+            v = v or ("still-listening", "the master and its workers are gone, yet connect() to the address still succeeds: the listening socket lives on in "
+                      "a process the application started at import time (pids %r)" % (holders or helpers))
+        elif holders:
+            v = v or ("listener-leaked-to-child-process", "helper process(es) %r started by the application at import time hold a socket inherited from the worker" % holders)
+        return v
+    finally:
+        for h in helpers:
+            try:
+                os.kill(h, signal.SIGKILL)
+            except OSError:
+                pass
+        s.cleanup()
+
+
 def real_cell(cell):
     try:
+        if cell[3] == "failing-exit-hook":
+            return _hook_cell(cell)
+        if cell[3] == "helper-at-import":
+            return _helper_cell(cell)
         return _real_cell(cell)
     except OSError as e:
         return ("infrastructure", "driver-side socket error: %r" % (e,))
@@ -329,6 +437,11 @@ def real_cells(thorough):
             cells.append((wc, "TERM", "response-partial", "finishes-late", "tcp"))
             cells.append((wc, "TERM", "accepted-idle", "finishes", "tcp+unix"))
             cells.append((wc, "TERM", "app-running", "finishes-late-aged", "tcp"))
+    for wc in classes:
+        cells.append((wc, "TERM", "accepted-idle", "helper-at-import", "tcp"))
+    cells.append(("sync", "QUIT", "accepted-idle", "helper-at-import", "unix"))
+    cells.append(("sync", "TERM", "app-running", "failing-exit-hook", "tcp"))
+    cells.append(("sync", "TERM", "app-running", "failing-exit-hook", "unix"))
     return [c for c in cells if not (c[2] == "keepalive-idle" and c[0] == "sync")]
 
 
